@@ -10,6 +10,7 @@ A property module provides:
   nontrivial(case) -> bool
 optional: known_class(case, mode, obs) -> slug | None ; neighbours(case, rng) -> [case] ; shrink(case) -> [case]
           normalize(obs) ; extra_checks(ctx) -> [(ok, name, detail)] (e.g. K1 table theorems) ; per_case_timeout ; budget
+          EXTRA_PROP_FILES (further theorem files, built and audited with Print Assumptions like PROP_FILE)
 """
 import collections
 import json
@@ -65,8 +66,7 @@ class Run:
         pid = mod.ID.lower()
         mine = set(getattr(mod, 'K1_DEPENDS', [])) | {'consts', pid, pid + '_translate'}
         closure = set()
-        extra_props = list(getattr(mod, 'EXTRA_PROP_FILES', []))     # further theorem files of the property (e.g. Props/CxxSrc.v)
-        for f in [mod.PROP_FILE] + extra_props + list(mod.EVAL_FILES):
+        for f in [mod.PROP_FILE] + list(mod.EVAL_FILES) + list(getattr(mod, 'EXTRA_PROP_FILES', [])):
             closure.update(core.coq_requires(f))
         for name, ok, lg in translate.regenerate(details=True):
             uses = any('Generated/%s.v' % g in closure for g in K1_FILES.get(name, []))
@@ -81,10 +81,10 @@ class Run:
         self.proof_ok = ok
         if not ok:
             self.broken.append('theorem file %s: %s' % (mod.PROP_FILE, _last_error(out)))
-        self.extra_ok = {}
-        for f in extra_props:
+        # optional further theorem files of the same property (EXTRA_PROP_FILES): built and audited like PROP_FILE
+        self.extra_props = list(getattr(mod, 'EXTRA_PROP_FILES', []))
+        for f in self.extra_props:
             ok, out = core.coq_build([f[:-2] + '.vo'])
-            self.extra_ok[f] = ok
             if not ok:
                 self.proof_ok = False
                 self.broken.append('theorem file %s: %s%s' % (f, _last_error(out), _blame(f, out)))
@@ -98,19 +98,18 @@ class Run:
             if not ok:
                 self.proof_ok = False
                 self.broken.append('Print Assumptions outside the allow-list or failed: ' + out[-800:])
-            for f in extra_props:
-                if self.extra_ok.get(f):
-                    ok, ax, out = core.print_assumptions(mod.ID + '_' + os.path.basename(f)[:-2], f)
-                    self.axioms.update(ax)
-                    if not ok:
-                        self.proof_ok = False
-                        self.broken.append('Print Assumptions outside the allow-list or failed (%s): %s' % (f, out[-800:]))
+            for i, f in enumerate(self.extra_props):
+                ok, ax, out = core.print_assumptions('%s_x%d' % (mod.ID, i), f)
+                self.axioms.update(ax)
+                if not ok:
+                    self.proof_ok = False
+                    self.broken.append('Print Assumptions (%s) outside the allow-list or failed: %s' % (f, out[-800:]))
         self.obligations, self.dep_files = core.count_obligations(mod.PROP_FILE)
-        for f in extra_props:
+        for f in self.extra_props:
             n, files = core.count_obligations(f)
-            new = [x for x in files if x not in self.dep_files]
-            self.obligations += sum(core.count_obligations_file(x) for x in new)
-            self.dep_files += new
+            new_files = [x for x in files if x not in self.dep_files]
+            self.dep_files = self.dep_files + new_files
+            self.obligations += _count_statements(new_files)      # only the files not counted yet
 
     # -- execution -----------------------------------------------------------
     def run_impl(self, cases):
@@ -171,7 +170,8 @@ class Run:
                     continue
                 exprs.append(e)
                 idx.append(i)
-            vals = core.coq_eval('%s_%s_%s' % (mod.ID, tag, mode), mod.IMPORTS, exprs)
+            # an observation the oracle expression cannot even be typed with is outside the observation type: verdict false
+            vals = core.coq_eval('%s_%s_%s' % (mod.ID, tag, mode), mod.IMPORTS, exprs, tolerate=True)
             for i, v in zip(idx, vals):
                 out[i] = (v == ('app', 'true', []))
             res[mode] = out
@@ -195,6 +195,20 @@ class Run:
                 if verdict[mode][i] is False:
                     failures.append((i, mode))
         return impl, model, verdict, disagreements, failures
+
+
+def _count_statements(files):
+    import re
+    n = 0
+    for f in files:
+        try:
+            src = open(os.path.join(core.COQ, f)).read()
+        except FileNotFoundError:
+            continue
+        src = re.sub(r'\(\*.*?\*\)', '', src, flags=re.S)
+        n += len(re.findall(r'^\s*(?:Local\s+|Global\s+|#\[[^\]]*\]\s*)?(?:Theorem|Lemma|Corollary|Fact|Proposition|Example|Remark)\s+\w+',
+                            src, flags=re.M))
+    return n
 
 
 def _last_error(out):
@@ -377,7 +391,7 @@ def _main(mod, tier, seed, replay):
                         'impl': {m: term.show(impl[m][i])[:400] for m in mod.MODES},
                         'model': {m: (term.show(model[m][i])[:400] if model[m][i] is not None else None) for m in mod.MODES}})
     thm = core.theorem_names(mod.PROP_FILE)
-    for f in getattr(mod, 'EXTRA_PROP_FILES', []):
+    for f in getattr(run, 'extra_props', []):
         thm = thm + core.theorem_names(f)
     axioms_used = sorted({a for v in run.axioms.values() for a in v})
     trusted = [
@@ -388,11 +402,12 @@ def _main(mod, tier, seed, replay):
         'K2: differential harness harness/%s (Rust, path dependency on the working tree, cfg %s) and tools/props/%s.py generators' % (
             ','.join(mod.CRATES), core.GUARD, mod.ID.lower()),
     ] + list(getattr(mod, 'TRUSTED', []))
-    if getattr(mod, 'EXTRA_PROP_FILES', []):
+    src_files = [f for f in getattr(mod, 'EXTRA_PROP_FILES', []) if f.endswith('Src.v')]
+    if src_files:
         trusted.append('K1 source tie (%s): tools/props/src_translate.py (+ the parser of c17_translate.py) translates the pure helper and '
                        'decision functions this property rests on from the Rust text on every run (coq/Generated/GenSrc*.v); trusted to read '
                        'the subset of Rust described in docs/reports/SRC.md as rustc does; coq/Base/MachineIntT.v defines the width-generic '
-                       'operators and result shapes the generated text uses' % ', '.join(mod.EXTRA_PROP_FILES))
+                       'operators and result shapes the generated text uses' % ', '.join(src_files))
     coverage = {
         'obligations': run.obligations,
         'discharged': run.obligations if run.proof_ok else 0,
